@@ -2,7 +2,7 @@
    Everything here is executable Gallina; no proofs. *)
 From Coq Require Import List NArith ZArith String Bool.
 Import ListNotations.
-From UV Require Import Py.Val Ural.TrieDict.
+From UV Require Import Py.Val Py.Regex Gen.Patterns Ural.TrieDict.
 Open Scope string_scope.
 
 Definition opt_wrap (o : option val) : val :=
@@ -41,9 +41,46 @@ Definition do_triedict (arg : val) : val :=
   | _ => vbad
   end.
 
+(* ---------------- regex engine vs CPython re (all generated patterns) ---------------- *)
+Definition vnat (n : nat) : val := VZ (Z.of_nat n).
+
+Definition vmres (ng : nat) (m : mres) : val :=
+  VL [vnat (m_start m); vnat (m_end m);
+      VL (map (fun g => match get_cap g (m_caps m) with
+                        | Some (a, b) => VL [vnat a; vnat b]
+                        | None => VNone end) (iota 1 ng))].
+
+Definition vmres_opt (ng : nat) (o : option mres) : val :=
+  match o with Some m => vmres ng m | None => VNone end.
+
+Fixpoint find_pat (name : str) (l : list (str * (re * (rflags * nat)))) :=
+  match l with
+  | [] => None
+  | (n, x) :: r => if str_eqb name n then Some x else find_pat name r
+  end.
+
+Definition do_regex (arg : val) : val :=
+  match arg with
+  | VL [VS name; VS op; VS s] =>
+      match find_pat name all_patterns with
+      | None => VErr (lit "UnknownPattern")
+      | Some (r, (f, ng)) =>
+          if str_eqb op (lit "match") then vmres_opt ng (re_match f r s)
+          else if str_eqb op (lit "search") then vmres_opt ng (re_search f r s)
+          else if str_eqb op (lit "fullmatch") then vmres_opt ng (re_fullmatch f r s)
+          else if str_eqb op (lit "finditer") then VL (map (vmres ng) (re_finditer f r s))
+          else if str_eqb op (lit "sub") then VS (re_sub f r (lit "<>") s)
+          else if str_eqb op (lit "split") then VL (map vstr_opt (re_split f r ng s None))
+          else if str_eqb op (lit "split1") then VL (map vstr_opt (re_split f r ng s (Some 1%nat)))
+          else vbad
+      end
+  | _ => vbad
+  end.
+
 (* ---------------- dispatch ---------------- *)
 Definition table : list (str * (val -> val)) :=
-  [ (lit "triedict", do_triedict) ].
+  [ (lit "triedict", do_triedict);
+    (lit "regex", do_regex) ].
 
 Fixpoint find_fn (name : str) (l : list (str * (val -> val))) : option (val -> val) :=
   match l with
